@@ -16,6 +16,8 @@
   c05.matrix / c05.text / c05.parse, not proved here.
 -/
 import PrologVerif.Spec.IsoError
+import PrologVerif.Spec.AnswerBound
+import PrologVerif.Spec.Relations
 import PrologVerif.Model.Exception
 import PrologVerif.Generated.Builtins
 import PrologVerif.Proofs.Read0Rec
@@ -175,6 +177,20 @@ def expectedBootstrap : List (String × Nat) :=
     (and the stream c05.matrix checks that a fresh interpreter knows exactly these procedures). -/
 theorem C05_builtins_tie :
     Builtins.registered = expectedRegistered ∧ Builtins.bootstrapDefined = expectedBootstrap := by decide
+
+/-! ## (c') the answer-count oracle -/
+
+/-- The count the stream c05.matrix holds between/3 to (Spec/AnswerBound `betweenCount`) is the number of
+    integers of the relation of Spec/Relations: `x` is between `l` and `h` iff it is one of the
+    `betweenCount l h` integers from `l` on — in particular no integer beyond `h`, however the
+    implementation's `l + 1` wraps. -/
+theorem C05_between_count (l h x : Int) :
+    Relations.between l h x ↔ l ≤ x ∧ x - l < (AnswerBound.betweenCount l h : Int) := by
+  unfold Relations.between AnswerBound.betweenCount; omega
+
+/-- non-vacuity / the seeded witness: between(max_integer, max_integer, X) has exactly one answer -/
+example : AnswerBound.bound "between" [some (.int 9223372036854775807), some (.int 9223372036854775807), some (.var 0)]
+    = .exactly 1 := by decide
 
 /-! ## (b) the token-level reader -/
 
